@@ -675,7 +675,28 @@ void Broker::handle(BConn& c, int ridx) {
 
 // ------------------------------------------------------------------ hostile mutations
 
-int hostile_kinds() { return 18; }
+int hostile_kinds() { return 22; }
+
+// position of the (single-byte) Property Length of a well-formed packet, false if the packet has none or a longer one
+static bool prop_len_pos(const std::string& s, size_t& pos, size_t& body_end) {
+    if (s.size() < 2 || ((uint8_t)s[1] & 0x80)) return false;          // single-byte Remaining Length only
+    size_t b = 2; body_end = b + (uint8_t)s[1];
+    if (body_end != s.size()) return false;
+    uint8_t t = ((uint8_t)s[0]) >> 4;
+    switch (t) {
+    case PUBLISH: {
+        if (b + 2 > s.size()) return false;
+        size_t tl = ((uint8_t)s[b] << 8) | (uint8_t)s[b + 1];
+        pos = b + 2 + tl + ((((uint8_t)s[0] >> 1) & 3) ? 2 : 0);
+        break; }
+    case CONNACK: case SUBACK: case UNSUBACK: pos = b + 2; break;
+    case PUBACK: case PUBREC: case PUBREL: case PUBCOMP: pos = b + 3; break;
+    case DISCONNECT: case AUTH: pos = b + 1; break;
+    default: return false;
+    }
+    if (pos >= s.size() || ((uint8_t)s[pos] & 0x80)) return false;
+    return pos + 1 + (uint8_t)s[pos] <= body_end;
+}
 
 std::string hostile_mutation(const std::string& raw, sim::Rng& r, int kind, std::string* desc) {
     std::string s = raw;
@@ -771,6 +792,44 @@ std::string hostile_mutation(const std::string& raw, sim::Rng& r, int kind, std:
     case 17: { // ill-formed UTF-8 somewhere
         set("bad_utf8");
         if (s.size() > 4) { size_t i = 2 + r.below(s.size() - 2); s[i] = (char)0xff; }
+        break; }
+    case 18: { // Property Length smaller than the properties that follow (the section ends inside a property, or what
+               // is left over becomes payload / reason codes / trailing bytes); everything stays inside the packet
+        set("prop_len_smaller");
+        size_t pos, end;
+        if (prop_len_pos(s, pos, end) && (uint8_t)s[pos] > 0) { uint8_t v = (uint8_t)s[pos]; s[pos] = (char)(v - 1 - r.below(v)); }
+        break; }
+    case 19: { // Property Length larger than the property section but still inside the packet (swallows payload / reason codes)
+        set("prop_len_larger");
+        size_t pos, end;
+        if (prop_len_pos(s, pos, end)) {
+            size_t after = end - (pos + 1 + (uint8_t)s[pos]);
+            size_t room = std::min<size_t>(after, 127 - (uint8_t)s[pos]);
+            if (room > 0) s[pos] = (char)((uint8_t)s[pos] + 1 + r.below(room));
+        }
+        break; }
+    case 20: case 21: { // 20: a property that may appear once, twice; 21: a property that is not allowed in this packet type
+        set(kind == 20 ? "duplicate_property" : "foreign_property");
+        size_t pos, end;
+        if (prop_len_pos(s, pos, end)) {
+            uint8_t t = ((uint8_t)s[0]) >> 4;
+            std::string ins;
+            if (kind == 20) {
+                if (t == PUBLISH) ins = std::string("\x01\x00\x01\x01", 4);                       // Payload Format Indicator twice
+                else if (t == CONNACK) ins = std::string("\x21\x00\x05\x21\x00\x06", 6);           // Receive Maximum twice
+                else ins = std::string("\x1f\x00\x01" "a" "\x1f\x00\x01" "b", 8);              // Reason String twice
+            } else {
+                if (t == CONNACK) ins = std::string("\x18\x00\x00\x00\x05", 5);                  // Will Delay Interval
+                else if (t == PUBLISH) ins = std::string("\x21\x00\x05", 3);                      // Receive Maximum
+                else ins = std::string("\x23\x00\x01", 3);                                      // Topic Alias
+            }
+            if ((uint8_t)s[pos] + ins.size() < 128 && (uint8_t)s[1] + ins.size() < 128) {
+                size_t at = pos + 1 + (uint8_t)s[pos];
+                s.insert(at, ins);
+                s[pos] = (char)((uint8_t)s[pos] + ins.size());
+                s[1] = (char)((uint8_t)s[1] + ins.size());
+            }
+        }
         break; }
     }
     if (s.empty()) s.push_back((char)0);
